@@ -144,6 +144,9 @@ func genCacheCase(t *rapid.T) CacheCase {
 			if rapid.IntRange(0, 9).Draw(t, "dup") == 0 {
 				st.Tasks = append(st.Tasks, st.Tasks[0])
 			}
+			if rapid.IntRange(0, 2).Draw(t, "elsewhere") == 0 {
+				st.Cwd = rapid.IntRange(1, 2).Draw(t, "cwd")
+			}
 			st.Force = rapid.IntRange(0, 3).Draw(t, "force") == 0
 			if id() == "C14" {
 				st.Force = rapid.Bool().Draw(t, "force14")
@@ -427,6 +430,17 @@ func templateCases() []CacheCase {
 		for _, fin := range final {
 			out = append(out, CacheCase{Tasks: mix, Init: map[string]string{"b.txt": "0", "s1.c": "0", "s2.c": "0"}, Steps: []Step{
 				run([]string{"A", "B"}, false, nil), del("s1.c"), del("s2.c"), mid, wr("s1.c", "0"), wr("s2.c", "0"), fin, fin}})
+		}
+	}
+	// the same project run from different working directories, with an edit that is undone again
+	at := func(st Step, cwd int) Step { st.Cwd = cwd; return st }
+	for _, prog := range enumProgs[:2] {
+		for _, fin := range final {
+			for _, ab := range [][2]int{{0, 1}, {1, 0}, {1, 2}} {
+				out = append(out, CacheCase{Tasks: prog, Init: map[string]string{"a.txt": "0", "b.txt": "0"}, Steps: []Step{
+					at(run([]string{"A", "B"}, false, nil), ab[0]), {Op: "write", File: "a.txt", Content: "1"}, at(run([]string{"A", "B"}, false, nil), ab[1]),
+					{Op: "write", File: "a.txt", Content: "0"}, at(fin, ab[0]), at(fin, ab[1])}})
+			}
 		}
 	}
 	// a dependency that is a symbolic link: the target is edited, not the link
